@@ -25,6 +25,32 @@ static GLOBAL: SimAlloc = SimAlloc;
 
 const VERIF: &str = "/verif";
 
+static HEARTBEAT: std::sync::atomic::AtomicU64 = std::sync::atomic::AtomicU64::new(0);
+#[inline]
+fn beat() {
+    HEARTBEAT.fetch_add(1, std::sync::atomic::Ordering::Relaxed);
+}
+/// A run that makes no progress for `secs` seconds (a loop over a corrupted length, say)
+/// is turned into a process abort, which the parent reports through the crash channel.
+fn start_watchdog(secs: u64) {
+    std::thread::spawn(move || {
+        let mut last = HEARTBEAT.load(std::sync::atomic::Ordering::Relaxed);
+        let mut since = Instant::now();
+        loop {
+            std::thread::sleep(std::time::Duration::from_millis(250));
+            let now = HEARTBEAT.load(std::sync::atomic::Ordering::Relaxed);
+            if now != last {
+                last = now;
+                since = Instant::now();
+            } else if since.elapsed().as_secs() >= secs {
+                simcore::blackbox::note_hang();
+                eprintln!("anysim: run made no progress for {} s - aborting (reported as a hang)", secs);
+                std::process::abort();
+            }
+        }
+    });
+}
+
 fn die2(msg: &str) -> ! {
     eprintln!("anysim: harness error: {}", msg);
     std::process::exit(2);
@@ -237,6 +263,7 @@ fn relevant(prop: &str, rep: &RunReport) -> bool {
     match prop {
         "C01" => nt(&[Op::Put, Op::Take, Op::Clear, Op::Get, Op::Iter]),
         "C02" | "C14" => nt(&[Op::Drain, Op::Splice, Op::Iter]),
+        "C04" => nt(&[Op::TypeProbe]),
         "C06" => rep.faults_fired[1] + rep.faults_fired[2] + rep.faults_fired[3] + rep.faults_fired[4] + rep.faults_fired[6] > 0,
         "C07" => rep.faults_fired[5] > 0,
         "C08" => nt(&[Op::CloneVec, Op::CloneEmpty, Op::CloneEmptyIn]),
@@ -280,6 +307,7 @@ fn worker(args: &[String]) {
     let infos = world_infos();
     simcore::registry::install_hook();
     simcore::blackbox::open(&format!("{}/bb-{}", outdir, wid));
+    start_watchdog(15);
     let start = Instant::now();
     let mut agg = Agg::default();
     let mut found: Vec<Found> = Vec::new();
@@ -297,6 +325,7 @@ fn worker(args: &[String]) {
         let mut base_rep: Option<RunReport> = None;
         while let Some(s) = todo.pop() {
             simcore::blackbox::note_run(seed, index, 1, vi);
+            beat();
             let w = worlds.entry(s.world).or_insert_with(|| world_table::make(s.world).unwrap());
             let mut o = opts_for(&prof);
             o.focus = if vi == 0 { g.focus_step } else { None };
@@ -383,13 +412,28 @@ fn violates(prop: &str, prof: &Profile, s: &Scenario, class: Class, crash: bool)
         std::fs::write(&tmp, scn::to_text(s, "", prop, "crash", "")).ok()?;
         let st = std::process::Command::new(std::env::current_exe().ok()?).args(["replay", &tmp, "--quiet"]).output().ok()?;
         let died = st.status.code().is_none() || st.status.code() == Some(134);
-        return if died { Some(Violation { class: Class::Crash, step: -1, op: Op::Nop, via: 0, on_stack: false, faulted: 0, detail: "process terminated".into() }) } else { None };
+        return if died { Some(crash_violation(s, &world_infos(), "process terminated".into())) } else { None };
     }
     let rep = run_one(prop, prof, s, None, false);
     match rep.violation {
         Some(v) if v.class == class && (owned(prop, &v) || class == Class::Unsupported) => Some(v),
         _ => None,
     }
+}
+
+/// A crash is attributed to the last step of the scenario (the one it died in once minimised).
+fn crash_violation(s: &Scenario, infos: &[WorldInfo], detail: String) -> Violation {
+    let last = s.steps.last();
+    let info = infos.iter().find(|i| i.id == s.world);
+    let on_stack = match (last, info) {
+        (Some(st), Some(i)) => i.be_of((st.slot % 3) as usize).on_stack() || i.be_of((st.other % 3) as usize).on_stack(),
+        _ => false,
+    };
+    let faulted = s.faults.last().map(|f| f.kind).unwrap_or_else(|| {
+        let forget = last.map(|st| (st.op == Op::Take && st.sink == SINK_FORGET) || (matches!(st.op, Op::Drain | Op::Splice) && (st.sink % 2 == END_FORGET || st.script.iter().any(|b| (b >> 1) % ITEM_KINDS == ITEM_FORGET)))).unwrap_or(false);
+        if forget { 5 } else { 0 }
+    });
+    Violation { class: Class::Crash, step: s.steps.len() as i32 - 1, op: last.map(|st| st.op).unwrap_or(Op::Nop), via: last.map(|st| st.via % 3).unwrap_or(0), on_stack, faulted, panic_involved: false, detail }
 }
 
 fn without_steps(s: &Scenario, from: usize, to: usize) -> Option<Scenario> {
@@ -581,6 +625,104 @@ fn level_of(prop: &str) -> &'static str {
     }
 }
 
+/// Per-index (scenario hash, event-log hash, violation signature) computed by `exe`
+/// in `jobs` parallel processes.
+fn hash_sweep(exe: &std::path::Path, prop: &str, n: u64, jobs: u64) -> BTreeMap<u64, String> {
+    let per = (n + jobs - 1) / jobs;
+    let mut kids = Vec::new();
+    for j in 0..jobs {
+        let lo = j * per;
+        let cnt = per.min(n.saturating_sub(lo));
+        if cnt == 0 {
+            continue;
+        }
+        let c = std::process::Command::new(exe)
+            .args(["selftest-determinism", prop, &cnt.to_string(), &lo.to_string()])
+            .stdout(std::process::Stdio::piped())
+            .spawn()
+            .unwrap_or_else(|e| die2(&format!("spawn {:?}: {}", exe, e)));
+        kids.push(c);
+    }
+    let mut m = BTreeMap::new();
+    for c in kids {
+        let o = c.wait_with_output().unwrap_or_else(|e| die2(&format!("wait: {}", e)));
+        for l in String::from_utf8_lossy(&o.stdout).lines() {
+            if let Some((i, rest)) = l.split_once(' ') {
+                if let Ok(i) = i.parse::<u64>() {
+                    m.insert(i, rest.to_string());
+                }
+            }
+        }
+    }
+    m
+}
+
+/// C19: the same seeds on the build without the `alloc` feature must give the same event
+/// logs; the no-alloc library artefact must not contain a heap back end or allocator calls.
+fn c19_differential(prop: &str, tier: &str, reported: &mut Vec<(String, String, String)>, infos: &[WorldInfo]) -> String {
+    let exe = std::env::current_exe().unwrap();
+    let na = std::path::PathBuf::from(format!("{}/target-noalloc/release/anysim", VERIF));
+    if !na.exists() {
+        die2("no-alloc build of anysim is missing (run ./check --build-only)");
+    }
+    let n: u64 = std::env::var("VERIF_RUNS").ok().and_then(|s| s.parse().ok()).unwrap_or(if tier == "thorough" { 1_500_000 } else { 60_000 });
+    let a = hash_sweep(&exe, prop, n, 16);
+    let b = hash_sweep(&na, prop, n, 16);
+    let mut diffs = 0u64;
+    let mut first: Option<u64> = None;
+    for i in 0..n {
+        if a.get(&i) != b.get(&i) {
+            diffs += 1;
+            if first.is_none() {
+                first = Some(i);
+            }
+        }
+    }
+    if let Some(i) = first {
+        let seed = batch_seed();
+        let out = std::process::Command::new(&exe).args(["emit", prop, tier, &seed.to_string(), &i.to_string(), "0"]).output().unwrap_or_else(|e| die2(&format!("emit: {}", e)));
+        let path = format!("{}/replays/{}-diff-{}.replay", VERIF, prop, i);
+        let mut txt = String::from_utf8_lossy(&out.stdout).to_string();
+        txt = txt.replace("expect crash", "expect build-differential");
+        txt.push_str(&format!("# default build : {}\n# no-alloc build: {}\n", a.get(&i).cloned().unwrap_or_default(), b.get(&i).cloned().unwrap_or_default()));
+        std::fs::write(&path, txt).ok();
+        reported.push(("build-differential".to_string(), path, format!("run index {}: event log differs between the default and the no-default-features build ({} of {} differ)", i, diffs, n)));
+    }
+    // artefact inspection (build precondition, not simulation)
+    let mut heap_syms = 0usize;
+    let mut alloc_refs = 0usize;
+    let mut inspected = String::from("no libany_vec rlib found");
+    if let Ok(rd) = std::fs::read_dir(format!("{}/target-noalloc/release/deps", VERIF)) {
+        for e in rd.flatten() {
+            let name = e.file_name().to_string_lossy().to_string();
+            if name.starts_with("libany_vec-") && name.ends_with(".rlib") {
+                if let Ok(o) = std::process::Command::new("nm").arg(e.path()).output() {
+                    let t = String::from_utf8_lossy(&o.stdout);
+                    heap_syms = t.lines().filter(|l| l.contains("3mem4heap")).count();
+                    alloc_refs = t.lines().filter(|l| l.contains("__rust_alloc") || l.contains("__rust_dealloc") || l.contains("__rust_realloc") || l.contains("__rust_alloc_zeroed") || l.contains("__rustc") && l.contains("alloc_error")).count();
+                    inspected = name;
+                }
+            }
+        }
+    }
+    if heap_syms > 0 || alloc_refs > 0 {
+        let path = format!("{}/replays/{}-artefact.txt", VERIF, prop);
+        std::fs::write(&path, format!("{}: {} heap back end symbol(s), {} allocator reference(s) in the no-default-features build\n", inspected, heap_syms, alloc_refs)).ok();
+        reported.push(("noalloc-artefact".to_string(), path, format!("no-alloc library artefact contains {} heap back end symbol(s) and {} allocator reference(s)", heap_syms, alloc_refs)));
+    }
+    let _ = infos;
+    format!(
+        "    \"differential\": {{\"seeds_compared\": {}, \"differing\": {}, \"default_build_runs\": {}, \"no_alloc_build_runs\": {}}},\n    \"build_preconditions\": {{\"artefact\": {}, \"heap_backend_symbols\": {}, \"allocator_references\": {}, \"note\": \"artefact inspection with nm, not simulation\"}},\n",
+        n,
+        diffs,
+        a.len(),
+        b.len(),
+        json_str(&inspected),
+        heap_syms,
+        alloc_refs
+    )
+}
+
 fn check(prop: &str, tier: &str) -> i32 {
     let prof = match profile(prop) {
         Some(p) => p,
@@ -643,9 +785,10 @@ fn check(prop: &str, tier: &str) -> i32 {
         let bb = simcore::blackbox::read(&format!("{}/bb-{}", workdir, w.wid));
         let (idx, sub, why) = match bb {
             Some(r) if r.phase == 1 => {
+                let st = if r.hang != 0 { format!("no progress for 15 s (hang), {:?}", st) } else { format!("{:?}", st) };
                 let why = match simcore::simalloc::violation_text((r.alloc_code, r.a as usize, r.b as usize)) {
-                    Some(t) => format!("worker died ({:?}); allocator monitor: {}", st, t),
-                    None => format!("worker died ({:?})", st),
+                    Some(t) => format!("worker died ({}); allocator monitor: {}", st, t),
+                    None => format!("worker died ({})", st),
                 };
                 (r.index, r.sub, why)
             }
@@ -825,7 +968,11 @@ fn check(prop: &str, tier: &str) -> i32 {
             }
         };
         let parsed = scn::from_text(&txt).unwrap_or_else(|e| die2(&format!("parse emitted scenario: {}", e)));
-        let v0 = Violation { class: Class::Crash, step: -1, op: Op::Nop, via: 0, on_stack: false, faulted: 0, detail: why.clone() };
+        let v0 = crash_violation(&parsed.scn, &infos, why.clone());
+        if !owned(prop, &v0) {
+            eprintln!("[anysim]   crash not owned by {}: {}", prop, why);
+            continue;
+        }
         std::fs::create_dir_all(format!("{}/work", VERIF)).ok();
         let (min, _) = if violates(prop, &prof, &parsed.scn, Class::Crash, true).is_some() { shrink(prop, &prof, &parsed.scn, &v0, shrink_budget) } else { (parsed.scn.clone(), v0.clone()) };
         let sig = format!("crash/{}", min.steps.last().map(|s| s.op.name()).unwrap_or("nop"));
@@ -841,6 +988,8 @@ fn check(prop: &str, tier: &str) -> i32 {
         std::fs::write(&path, scn::to_text(&min, &name, prop, &sig, why)).ok();
         reported.push((sig, path, why.clone()));
     }
+
+    let extra_json = if prop == "C19" { c19_differential(prop, tier, &mut reported, &infos) } else { String::new() };
 
     // evidence
     let wall = start.elapsed().as_secs_f64();
@@ -894,6 +1043,7 @@ fn check(prop: &str, tier: &str) -> i32 {
     ev.push_str(&format!("    \"violations_reported\": [{}],\n", reported.iter().map(|r| json_str(&format!("{} {}", r.0, r.1))).collect::<Vec<_>>().join(", ")));
     ev.push_str("    \"components\": {\"real\": [\"any_vec (all of /repo/src, rebuilt from the working tree)\", \"mem::Heap\", \"mem::Stack\", \"mem::StackN\"], \"simulated\": [\"user-defined back end SimMem/SimBuilder\", \"global allocator SimAlloc\", \"element types with Drop/Clone fuses\", \"replacement iterators\", \"client issuing API calls\", \"placement arena\"], \"model\": [\"Vec<tag> per vector + ownership ledger\"]},\n");
     ev.push_str(&format!("    \"engine\": {},\n", json_str(if cfg!(debug_assertions) { "native, checked profile (debug assertions + overflow checks)" } else { "native, release-like profile" })));
+    ev.push_str(&extra_json);
     ev.push_str("    \"exhaustive\": false\n");
     ev.push_str("  },\n");
     ev.push_str("  \"assumptions\": [\"sampling of histories, not proof\", \"guard zones / poison / quarantine detect out-of-bounds and stale accesses only when they land on instrumented bytes or surface in a result\", \"the Vec-of-tags model and the harness adapter are trusted\", \"rustc/LLVM and the release-like profile used to build the library\"],\n");
@@ -995,6 +1145,7 @@ fn main() {
         "replay" => {
             let trace = args.iter().any(|a| a == "--trace");
             let quiet = args.iter().any(|a| a == "--quiet");
+            start_watchdog(if quiet { 5 } else { 15 });
             std::process::exit(replay(&args[1], trace, quiet));
         }
         "run" => {
@@ -1021,6 +1172,7 @@ fn main() {
             }
         }
         "emit" => {
+            start_watchdog(15);
             let prop = args[1].as_str();
             let tier = args[2].as_str();
             let seed: u64 = args[3].parse().unwrap();
